@@ -5,6 +5,7 @@
 //!   yvx-conform buildinfo
 mod frames;
 mod gen_color;
+mod gen_math;
 mod gen_tf;
 mod gen_yuv;
 mod util;
@@ -62,13 +63,15 @@ fn main() {
         "buildinfo" => println!("{}", build_tag()),
         "gen" => {
             let prop = pos.first().expect("property id").clone();
-            let mut sh = util::Shards::create(&o.out, &prop, o.shards).expect("create shards");
+            let mut sh = util::Shards::create(&o.out, &prop, o.shards, &build_tag()).expect("create shards");
             let stats = match prop.as_str() {
                 "C01" => gen_yuv::gen_c01(&mut sh, &o),
                 "C02" => gen_yuv::gen_c02(&mut sh, &o),
                 "C08" => gen_yuv::gen_c08(&mut sh, &o),
                 "C03" => gen_tf::gen_c03(&mut sh, &o),
                 "C10" => gen_tf::gen_c10(&mut sh, &o),
+                "C18" => gen_math::gen_c18(&mut sh, &o),
+                "C19" => gen_math::gen_c19(&mut sh, &o),
                 "C04" => gen_color::gen_c04(&mut sh, &o),
                 "C05" => gen_color::gen_c05(&mut sh, &o),
                 "C06" => gen_color::gen_c06(&mut sh, &o),
